@@ -28,16 +28,18 @@ Note(v) == IF v = "" THEN TRUE ELSE PrintT("@@VIOL " \o v \o " " \o ToString(l))
 \* the private flag of the scenario comes from the ENCODING the harness put into the info dict, read by Private!IsPrivateEncoding
 CfgOf(e) == [priv |-> IsPrivateEncoding(e.encv), dht |-> e.dht, pex |-> e.pex, sibling |-> e.sibling, mode |-> e.mode]
 
-TraceInit == l = 2 /\ Trace[1].ev = "init" /\ InitWith(CfgOf(Trace[1])) /\ pend = {} /\ TLCSet(1, 1)
+\* e.co = "none" | "file" | "magnet": a co-tenant (public torrent / magnet link announcing to the same URL) was added to the session first
+CoOf(e) == e.co # "none"
+TraceInit == l = 2 /\ Trace[1].ev = "init" /\ InitWith2(CfgOf(Trace[1]), CoOf(Trace[1])) /\ pend = {} /\ TLCSet(1, 1)
 
 TrReset ==
     /\ Ev.ev = "init"
     /\ cfg' = CfgOf(Ev) /\ pend' = {}
     /\ info' = (IF Ev.mode = "file" THEN "known" ELSE "none")
-    /\ running' = FALSE /\ conn' = {} /\ pexOn' = {} /\ queue' = {} /\ dialled' = {}
+    /\ running' = FALSE /\ stopping' = FALSE /\ conn' = {} /\ pexOn' = {} /\ queue' = {} /\ dialled' = {}
     /\ dhtAnn' = FALSE /\ dhtPending' = FALSE /\ asked' = FALSE /\ sibAsked' = FALSE /\ nodes' = FALSE
     /\ magnetRes' = "none" /\ leak' = {} /\ hist' = 0
-    /\ life' = [bf |-> FALSE, ident |-> IF Ev.mode = "file" /\ IsPrivateEncoding(Ev.encv) THEN "private" ELSE "public", gone |-> FALSE]
+    /\ life' = [bf |-> FALSE, ident |-> IF Ev.mode = "file" /\ IsPrivateEncoding(Ev.encv) THEN "private" ELSE "public", gone |-> FALSE, co |-> CoOf(Ev)]
     /\ l' = l + 1
 
 Keep == UNCHANGED <<hist, pend>> /\ l' = l + 1
@@ -48,7 +50,14 @@ Why == IF IsPriv THEN "private" ELSE IF info = "refused" THEN "refused" ELSE ""
 
 \* ---- stimuli ---------------------------------------------------------------
 TrStart == Ev.ev = "start" /\ (IF running THEN UNCHANGED vars ELSE DoStart /\ UNCHANGED hist) /\ pend' = {} /\ l' = l + 1
-TrStop  == Ev.ev = "stop" /\ (IF running THEN DoStop /\ UNCHANGED hist ELSE UNCHANGED vars) /\ pend' = pend \cup queue /\ l' = l + 1
+\* "stop" = the harness saw the torrent in Stopped state (both steps of the stop); "stopping" = it saw it enter Stopping;
+\* "stopped" = the torrent that was seen Stopping has reached Stopped
+TrStop  == Ev.ev = "stop" /\ (IF running THEN DoStopTo(FALSE) /\ UNCHANGED hist ELSE IF stopping THEN DoStopped /\ UNCHANGED hist ELSE UNCHANGED vars)
+           /\ pend' = pend \cup queue /\ l' = l + 1
+TrStopping == Ev.ev = "stopping" /\ (IF running THEN DoStopTo(TRUE) /\ UNCHANGED hist ELSE UNCHANGED vars) /\ pend' = pend \cup queue /\ l' = l + 1
+TrStopped == Ev.ev = "stopped" /\ (IF stopping THEN DoStopped /\ UNCHANGED hist ELSE UNCHANGED vars) /\ UNCHANGED pend /\ l' = l + 1
+\* a co-tenant is added while the torrent exists (matters for the next reload)
+TrCoTenant == Ev.ev = "cotenant" /\ (IF life.co THEN UNCHANGED vars ELSE DoCoTenant /\ UNCHANGED hist) /\ UNCHANGED pend /\ l' = l + 1
 TrTrackerReply == Ev.ev = "trkreply" /\ DoTrackerPeers /\ Keep
 TrAddPeer == Ev.ev = "addpeer" /\ DoAddPeer /\ Keep
 TrConnIn == Ev.ev = "conn_in" /\ (IF running THEN DoIncoming /\ UNCHANGED hist ELSE UNCHANGED vars) /\ UNCHANGED pend /\ l' = l + 1
@@ -60,7 +69,7 @@ TrSibling == Ev.ev = "sibling" /\ (IF cfg.sibling /\ cfg.dht THEN DoSiblingAsk /
 \* (read from the database by the harness between the two sessions)
 TrReload ==
     /\ Ev.ev = "reload"
-    /\ life' = [bf |-> Ev.bf, ident |-> IF IsPriv THEN "private" ELSE "public", gone |-> FALSE]
+    /\ life' = [bf |-> Ev.bf, ident |-> IF IsPriv THEN "private" ELSE "public", gone |-> FALSE, co |-> life.co]
     /\ StopEffects /\ info' = (IF info = "refused" THEN "none" ELSE info)
     /\ UNCHANGED <<cfg, dialled, asked, sibAsked, nodes, magnetRes, leak, hist>>
     /\ pend' = pend \cup queue /\ l' = l + 1
@@ -89,7 +98,7 @@ TrDial ==
                          ELSE IF Why = "refused" THEN "C19.metadata.leak.dial"
                          ELSE "NOTE.dial.unexplained." \o Ev.src)
                  /\ dialled' = dialled \cup {Ev.src} /\ conn' = conn \cup {Ev.src}
-                 /\ UNCHANGED <<cfg, info, running, pexOn, queue, dhtAnn, dhtPending, asked, sibAsked, nodes, magnetRes, leak, hist, life>>
+                 /\ UNCHANGED <<cfg, info, running, stopping, pexOn, queue, dhtAnn, dhtPending, asked, sibAsked, nodes, magnetRes, leak, hist, life>>
     /\ UNCHANGED pend /\ l' = l + 1
 
 \* @obligation C19.pex.sent   the client sent a ut_pex message to peer Ev.p
@@ -108,13 +117,14 @@ TrDhtQ ==
            sib == cfg.sibling /\ sibAsked /\ Ev.who # "t1"                \* the sibling asks on its own behalf
        IN IF mine
           THEN /\ asked' = TRUE /\ dhtPending' = dhtPending
-               /\ UNCHANGED <<cfg, info, running, conn, pexOn, queue, dialled, dhtAnn, sibAsked, nodes, magnetRes, leak, hist, life>>
+               /\ UNCHANGED <<cfg, info, running, stopping, conn, pexOn, queue, dialled, dhtAnn, sibAsked, nodes, magnetRes, leak, hist, life>>
           ELSE /\ Note(IF sib THEN ""
                        ELSE IF Why = "private" THEN "C19.dht.asked"
-                       ELSE IF Why = "refused" THEN "C19.metadata.leak.dht"
+                       \* .stopping: the query left while the refusing torrent was sending the "stopped" event to its trackers
+                       ELSE IF Why = "refused" THEN (IF stopping THEN "C19.metadata.leak.dht.stopping" ELSE "C19.metadata.leak.dht")
                        ELSE "NOTE.dht.unexplained")
                /\ asked' = TRUE
-               /\ UNCHANGED <<cfg, info, running, conn, pexOn, queue, dialled, dhtAnn, dhtPending, sibAsked, nodes, magnetRes, leak, hist, life>>
+               /\ UNCHANGED <<cfg, info, running, stopping, conn, pexOn, queue, dialled, dhtAnn, dhtPending, sibAsked, nodes, magnetRes, leak, hist, life>>
     /\ UNCHANGED pend /\ l' = l + 1
 
 \* @obligation C19.metadata   private metadata from a magnet link is refused (and public metadata is adopted)
@@ -142,7 +152,8 @@ TrMagnet ==
 \* @obligation C19.identity.*
 TrIdent ==
     /\ Ev.ev = "ident"
-    /\ Note(IF IsPriv /\ Ev.cls # "private" THEN "C19.identity." \o Ev.what
+    \* .cotenant: the session holds another torrent that announces to the same tracker URL and was added first
+    /\ Note(IF IsPriv /\ Ev.cls # "private" THEN "C19.identity." \o Ev.what \o (IF life.co /\ Ev.what = "ua" THEN ".cotenant" ELSE "")
             ELSE IF ~cfg.priv /\ Ev.cls = "private" THEN "C19.identity." \o Ev.what \o ".public"
             ELSE "")
     /\ Skip
@@ -164,7 +175,7 @@ TrSkip == Ev.ev \in {"end", "note"} /\ Skip
 
 TraceNext ==
     /\ l <= Len(Trace)
-    /\ \/ TrReset \/ TrStart \/ TrStop \/ TrTrackerReply \/ TrAddPeer \/ TrConnIn \/ TrExtHs \/ TrPexMsg \/ TrPortMsg
+    /\ \/ TrReset \/ TrStart \/ TrStop \/ TrStopping \/ TrStopped \/ TrCoTenant \/ TrTrackerReply \/ TrAddPeer \/ TrConnIn \/ TrExtHs \/ TrPexMsg \/ TrPortMsg
        \/ TrSibling \/ TrReload \/ TrGone \/ TrDhtValues \/ TrDial \/ TrPexRx \/ TrDhtQ \/ TrMeta \/ TrMagnet \/ TrIdent \/ TrObs \/ TrSkip
 
 TraceSpec == TraceInit /\ [][TraceNext]_tvars
